@@ -492,8 +492,14 @@ class ObservableResource(Resource, metaclass=abc.ABCMeta):
     async def _render_to_pipe(self, pipe: Pipe) -> None:
         from .protocol import ServerObservation
 
+        from .numbers.codes import GET, FETCH
+
         # If block2:>0 comes along, we'd just ignore the observe
-        if pipe.request.opt.observe != 0:
+        #
+        # Observing is only defined for GET (RFC 7641) and FETCH (RFC 8132):
+        # on any other request the option is ignored, lest the request be
+        # carried out again with every later change of the resource
+        if pipe.request.opt.observe != 0 or pipe.request.code not in (GET, FETCH):
             return await Resource._render_to_pipe(self, pipe)
 
         # If block1 happens here, we can probably just not support it for the
